@@ -6,7 +6,7 @@
    Outage = BLinkDown cause=script (or the first failing client-side write of a connection) while Close has not been called. Judged at the end of the scenario (Quiesced). *)
 EXTENDS MonCommon
 
-MonInit == [ tokens |-> 0, dials |-> 0, cuts |-> <<>>, accepts |-> <<>>, connects |-> <<>>, disc |-> 0, recon |-> 0, lastReconI |-> 0, hung |-> 0,
+MonInit == [ tokens |-> 0, dials |-> 0, cuts |-> <<>>, accepts |-> <<>>, connects |-> <<>>, established |-> {}, disc |-> 0, recon |-> 0, lastReconI |-> 0, hung |-> 0,
              streams |-> <<>>,      \* [sid, kind ("up"|"down"), obj, alias, openI, closeCallI, closedErr, streamClosedErr, resumed]
              resumeReqs |-> <<>>,   \* [sid, c, alias, i, kind]
              resumeResps |-> <<>>,  \* [sid, c, code]
@@ -25,14 +25,19 @@ MonStep(m, e) ==
     CASE e.ev = "Token" -> [m EXCEPT !.tokens = @ + 1]
       [] e.ev = "Dial" -> [m EXCEPT !.dials = @ + 1]
       [] e.ev = "BAccept" -> [m EXCEPT !.accepts = Append(@, [c |-> e.c, i |-> e.i])]
-      [] e.ev = "BLinkDown" /\ e.cause = "script" -> IF \E x \in RangeS(m.cuts) : x.c = e.c THEN m     \* (already broken: one outage per connection)
+      \* an outage is the loss of an ESTABLISHED connection; a transport that is lost during the connect handshake of a redial attempt is a
+      \* failed attempt of the outage that is already going on
+      \* (established = the client itself reported the connection: Connect returned / the Reconnected notification; the incarnation is the
+      \* latest one the broker accepted)
+      [] e.ev = "ApiRet" /\ e.op = "Connect" /\ e.err = "" -> [m EXCEPT !.established = @ \cup {Max0({ a.c : a \in RangeS(m.accepts) })}]
+      [] e.ev = "BLinkDown" /\ e.cause = "script" -> IF (\E x \in RangeS(m.cuts) : x.c = e.c) \/ e.c \notin m.established THEN m     \* (already broken: one outage per connection)
                                                      ELSE [m EXCEPT !.cuts = Append(@, [c |-> e.c, i |-> e.i])]
       \* a write error reported by the transport while its read direction still works is an outage of that connection as well
-      [] e.ev = "Fault" /\ e.do \in {"failWrite", "failWriteIO"} -> IF \E x \in RangeS(m.cuts) : x.c = e.c THEN m
+      [] e.ev = "Fault" /\ e.do \in {"failWrite", "failWriteIO"} -> IF (\E x \in RangeS(m.cuts) : x.c = e.c) \/ e.c \notin m.established THEN m
                                                  ELSE [m EXCEPT !.cuts = Append(@, [c |-> e.c, i |-> e.i])]
       [] e.ev = "BRecvReq" /\ e.kind = "ConnectRequest" -> [m EXCEPT !.connects = Append(@, [c |-> e.c, token |-> e.token])]
       [] e.ev = "Disconnected" -> IF m.closeConnI = 0 THEN [m EXCEPT !.disc = @ + 1] ELSE m
-      [] e.ev = "Reconnected" -> [m EXCEPT !.recon = @ + 1, !.lastReconI = e.i]
+      [] e.ev = "Reconnected" -> [m EXCEPT !.recon = @ + 1, !.lastReconI = e.i, !.established = @ \cup {Max0({ a.c : a \in RangeS(m.accepts) })}]
       [] e.ev = "Watchdog" -> [m EXCEPT !.hung = @ + 1]        \* an API call that had not returned when the harness's watchdog fired (all calls carry contexts well below it)
       [] e.ev = "BRecvReq" /\ e.kind = "DownstreamOpenRequest" -> m
       [] e.ev = "ApiRet" /\ e.op \in {"OpenUpstream", "OpenDownstream"} /\ e.err = "" ->
